@@ -209,6 +209,10 @@ impl Plan {
             return false;
         };
         log("life", &self.victim, "fire", json!({"event": ev, "ord": ord}));
+        if matches!(ev, "Close" | "Drop" | "IceStop") {
+            // what the other endpoint experiences: its peer goes away (close() rarely gets a close_notify out)
+            log("life", &p.label, "fire", json!({"event": "SocketLoss", "ord": 0}));
+        }
         match ev {
             "Close" => v.close(),
             "Drop" => v.drop_pc(),
@@ -232,7 +236,7 @@ impl Plan {
                         let p2 = p.clone();
                         self.handle.spawn(async move {
                             tokio::time::sleep(Duration::from_millis(60)).await;
-                            p2.close();
+                            close_other(&p2);
                         });
                         true
                     }
@@ -271,7 +275,7 @@ impl Plan {
                             }
                             // the peer's association is gone; so is the peer shortly afterwards
                             tokio::time::sleep(Duration::from_millis(60)).await;
-                            p2.close();
+                            close_other(&p2);
                         });
                         true
                     }
@@ -280,11 +284,17 @@ impl Plan {
             }
             "SocketLoss" => {
                 // the peer vanishes without a word (close() stops ICE before any notification leaves)
-                p.close()
+                close_other(&p)
             }
             _ => false,
         }
     }
+}
+
+/// close() on the endpoint that is not the victim, logged as that endpoint's own terminating event
+fn close_other(p: &Side) -> bool {
+    log("life", &p.label, "fire", json!({"event": "Close", "ord": 0}));
+    p.close()
 }
 
 // --------------------------------------------------------------------------- SCTP packet crafting
@@ -616,7 +626,7 @@ async fn run_c17(sc: &Value, attempt: u64, rec: Arc<Recorder>) -> Value {
             log("life", &victim, "fire", json!({"event": "BlockedSender", "ord": 1}));
             plan.fired1.store(true, Ordering::SeqCst);
             plan.applicable1.store(true, Ordering::SeqCst);
-            p.close();
+            close_other(&p);
             let in_flight = Arc::new(AtomicBool::new(false));
             let sent = Arc::new(AtomicU64::new(0));
             if let Some(pc) = v.try_pc() {
@@ -764,8 +774,24 @@ async fn run_c17(sc: &Value, attempt: u64, rec: Arc<Recorder>) -> Value {
     log("life", &victim, "second_close", json!({"called": closed_again, "before": peer_before2, "peer": peer_after2, "reason": reason_after2}));
     let dc_was_open = v.dc_open.load(Ordering::SeqCst);
     let other = pair.side(if victim == "A" { "B" } else { "A" }).clone();
-    other.close();
+    let other_obs_peer = format!("{:?}", other.peer_state().unwrap());
+    let other_obs_reason = other.reason().to_string();
+    // the application of the other endpoint closes too (whatever it has noticed so far), then asks its API
+    close_other(&other);
     quiesce(Duration::from_millis(100), Duration::from_secs(2)).await;
+    let mut other_api: Vec<Value> = vec![];
+    if let Some(pc) = other.try_pc() {
+        let l = other.label.clone();
+        other_api.push(api_call(&l, "wait_for_connected", bound, pc.wait_for_connected(), okerr).await);
+        other_api.push(api_call(&l, "create_offer", bound, pc.create_offer(), okerr).await);
+        let id = other.dc.lock().as_ref().map(|d| d.id).unwrap_or(0);
+        other_api.push(api_call(&l, "send_data", bound, pc.send_data(id, b"after"), okerr).await);
+        other_api.push(api_call(&l, "wait_for_gathering_complete", bound, pc.wait_for_gathering_complete(), |_| "ok".into()).await);
+        drop(pc);
+    }
+    let other_peer = format!("{:?}", other.peer_state().unwrap());
+    let other_reason = other.reason().to_string();
+    let other_sig = other.sig_state();
     let dc_closes = v.dc_closes.load(Ordering::SeqCst);
     let other_open = other.dc_open.load(Ordering::SeqCst);
     let other_closes = other.dc_closes.load(Ordering::SeqCst);
@@ -777,8 +803,12 @@ async fn run_c17(sc: &Value, attempt: u64, rec: Arc<Recorder>) -> Value {
     if v.pc.lock().is_some() {
         log("life", &victim, "fire", json!({"event": "Drop", "ord": 4}));
     }
+    if other.pc.lock().is_some() {
+        log("life", &other.label, "fire", json!({"event": "Drop", "ord": 0}));
+    }
     pair.a.drop_pc();
     pair.b.drop_pc();
+    let other_final_peer = format!("{:?}", other.peer_state().unwrap());
     let final_peer = format!("{:?}", v.peer_state().unwrap());
     let final_reason = v.reason().to_string();
     let final_sig = v.sig_state();
@@ -799,6 +829,14 @@ async fn run_c17(sc: &Value, attempt: u64, rec: Arc<Recorder>) -> Value {
         && (ev2 == "none"
             || (blocked && !at2.starts_with("sctp:"))
             || (plan.fired2.load(Ordering::SeqCst) && plan.applicable2.load(Ordering::SeqCst)));
+    let other_json = json!({
+        "inst": if victim == "A" { "B" } else { "A" },
+        "obs_peer": other_obs_peer, "obs_reason": other_obs_reason,
+        "peer": other_peer, "reason": other_reason, "sig": other_sig, "final_peer": other_final_peer,
+        "dc_was_open": other_open, "dc_closes": other_closes,
+        "api_hangs": other_api.iter().filter(|a| a["hang"] == true).count(),
+        "api": other_api,
+    });
     json!({
         "comp": "life", "ev": "end", "inst": victim, "id": sc["id"], "hit": hit,
         "fired1": fired1, "applicable1": app1,
@@ -813,6 +851,7 @@ async fn run_c17(sc: &Value, attempt: u64, rec: Arc<Recorder>) -> Value {
         "base_tasks": base_tasks, "base_socks": base_socks, "tasks_settled": tasks_settled,
         "end_tasks": end_tasks, "end_socks": end_socks, "released": released, "leak_detail": leak_detail, "rel_ms": rel_ms,
         "notes": notes, "probes": plan.nprobe.load(Ordering::Relaxed),
+        "other": other_json,
     })
 }
 
